@@ -1076,7 +1076,8 @@ impl Iterator for ExpandIncludeFile<'_> {
                 debug!("failed to read @-file `{}`: {}", file.display(), e);
                 return Some(arg);
             }
-            if contents.contains('"') || contents.contains('\'') {
+            // (gcc and clang also read a backslash as an escape character)
+            if contents.contains('"') || contents.contains('\'') || contents.contains('\\') {
                 return Some(arg);
             }
             let new_args = contents.split_whitespace().collect::<Vec<_>>();
